@@ -251,6 +251,12 @@ impl<'a> Iterator for Probe<'a> {
         for _ in 0..ctx.case.probe_spin {
             std::hint::spin_loop();
         }
+        if ctx.case.probe_sleep_us > 0 && ctx.case.mode == Mode::F {
+            let r = crate::item::mix64(self.pos ^ ctx.case.seed);
+            if r % 4 == 0 {
+                std::thread::sleep(std::time::Duration::from_micros(1 + (r >> 8) % ctx.case.probe_sleep_us as u64));
+            }
+        }
         let out = if self.done || self.pos >= self.len {
             if self.endless && !self.done {
                 ctx.budget_exhausted.store(true, Relaxed);
